@@ -267,7 +267,7 @@ fn hexcap(b: &[u8]) -> String {
 pub fn run(ctx: &Ctx) -> Report {
     let mut rep = Report::new("C15");
     rep.corr_module = "AccountRealloc".into();
-    rep.expect_classes(&["rp:grow:ok", "rp:shrink:ok", "rp:same:ok", "rp:err:missing", "rp:err:limit", "packer:item", "position:first", "position:middle", "position:last", "rp:fixed-capacity-packer", "account:value>10KiB", "account:10MiB"]);
+    rep.expect_classes(&["rp:grow:ok", "rp:shrink:ok", "rp:same:ok", "rp:err:missing", "rp:err:limit", "packer:item", "position:first", "position:middle", "position:last", "rp:fixed-capacity-packer", "account:value>10KiB", "account:10MiB", "account:slot-larger-than-value"]);
     let mut rng = Rng::new(ctx.seed.wrapping_mul(233).wrapping_add(15));
     // ---------------- derived packer on items
     let n_items = ctx.scale(300, 3000);
@@ -328,7 +328,15 @@ pub fn run(ctx: &Ctx) -> Report {
             let l = if mode_big && j == nent / 2 { rng.range(10_300, 14_000) as usize } else { match rng.below(6) { 0 => 0, 1 => 4, _ => rng.below(40) as usize } };
             let borsh = rng.chance(1, 2);
             let payload = rng.bytes(l);
-            o.es.push((t, var_enc(&payload, borsh)));
+            let mut v = var_enc(&payload, borsh);
+            // a slot larger than the value it holds (as after an in-slot pack of a shorter value, or a generous alloc)
+            if !mode_huge && rng.chance(1, 4) {
+                let slack = rng.range(1, 12) as usize;
+                let fill = if rng.chance(1, 2) { 0 } else { rng.byte() };
+                v.extend(std::iter::repeat(fill).take(slack));
+                rep.count("account:slot-larger-than-value");
+            }
+            o.es.push((t, v));
         }
         let mut spare = match rng.below(4) { 0 => 0, 1 => rng.range(1, 11) as usize, _ => rng.below(60) as usize };
         if mode_huge {
